@@ -77,6 +77,80 @@ static void run_helpers(const w_case *c, int t, int ret, int accepted)
 	free(s);
 }
 
+static void run_helpers_big(const char *ct, const char *rp, uint64_t t, int ret, int accepted)
+{
+	char *volatile s = NULL; char key[300];
+	const char *bad = NULL;
+	W_COUNT("helper_runs", 1);
+	if (VX_TRY) { (void)rf_wavheader_validate(w_wh); VX_END; } else { VX_END; bad = "rf_wavheader_validate"; }
+	if (!bad) { if (VX_TRY) { (void)rf_wavheader_get_format(w_wh); VX_END; } else { VX_END; bad = "rf_wavheader_get_format"; } }
+	if (!bad) { if (VX_TRY) { s = rf_wavheader_tostring(w_wh); VX_END; } else { VX_END; bad = "rf_wavheader_tostring"; } }
+	free(s);
+	if (bad) {
+		snprintf(key, sizeof(key), "helper-fault|%s|%s|decode=%s", bad, vx_fault_msg, accepted ? "accepted" : "not-accepted");
+		w_report(key, ct, rp, "%s() faults (%s) on the structure left by rf_wavheader_decode(%llu bytes) = %d", bad, vx_fault_msg, (unsigned long long)t, ret);
+	}
+}
+
+/* big headers (wav_common.h): length contract and truncation clause for headers of up to 16 MiB */
+static void c14_big(const w_bigcase *c)
+{
+	char ct[200], key[300];
+	w_big_setup();
+	uint64_t n = w_big_build(c, w_big_img);
+	char *rp = w_big_replay(c);
+	w_ref ref; w_ref_parse(w_big_img, n, &ref);
+	/* the full input, then truncation points around every boundary of the layout */
+	uint64_t hl = ref.len, e = 38 + (uint64_t)c->ext, pts[20]; int np = 0;
+	pts[np++] = n;
+	const uint64_t cand[] = { 0, 19, 20, 37, 38, 39, 38 + (uint64_t)c->ext / 2, e - 1, e, e + 1, e + 4, e + 8, e + 12, hl - 9, hl - 8, hl - 4, hl - 1, hl };
+	for (unsigned i = 0; i < sizeof(cand) / sizeof(cand[0]); i++) {
+		int dup = 0;
+		if (cand[i] > n) continue;
+		for (int j = 0; j < np; j++) if (pts[j] == cand[i]) dup = 1;
+		if (!dup) pts[np++] = cand[i];
+	}
+	snprintf(ct, sizeof(ct), "big-header|fmt-extension=%u", c->ext);
+	W_COUNT("big_headers", 1);
+	for (int k = 0; k < np; k++) {
+		uint64_t t = pts[k];
+		uint8_t *p = w_big_in_end - t;
+		int ret = 0;
+		memcpy(p, w_big_img, t);
+		memset(w_wh, 0xa5, sizeof(*w_wh));
+		W_COUNT("evaluations", 1); W_COUNT("big_header_decodes", 1);
+		if (VX_TRY) { ret = rf_wavheader_decode(p, (unsigned)t, w_wh); VX_END; }
+		else {
+			VX_END;
+			snprintf(key, sizeof(key), "decode-fault|%s|buffer ends at guard page", vx_fault_msg);
+			w_report(key, ct, rp, "rf_wavheader_decode faults (%s) on the first %llu bytes of a %llu-byte header with a %u-byte fmt extension", vx_fault_msg,
+				 (unsigned long long)t, (unsigned long long)hl, c->ext);
+			continue;
+		}
+		int accepted = ret >= 0 && (uint64_t)ret <= t;
+		W_COUNT(accepted ? "outcome_accepted" : ret < 0 ? "outcome_negative" : "outcome_incomplete", 1);
+		if (!w_silent && !replaying) {
+			vx_hasher h; vx_h_init(&h); vx_h_u64(&h, 0xb16); vx_h_u64(&h, c->ext); vx_h_u64(&h, c->cb); vx_h_u64(&h, c->af); vx_h_u64(&h, (uint64_t)(c->fact * 4 + c->trail)); vx_h_u64(&h, t);
+			if (vx_set_add(&seen_inputs, vx_h_done(&h))) vx_count("distinct", 1);
+			if (t == n && vx_want_sample() && c->ext >= 65536 && c->cb == 0 && c->af == 0xfffe && !c->trail)
+				vx_sample("%s cb=%u af=%u fact=%d sz=%llu -> %d (reference: length %llu)", ct, c->cb, c->af, c->fact, (unsigned long long)t, ret, (unsigned long long)hl);
+		}
+		if (accepted && t < hl)
+			w_report("truncation", ct, rp, "the first %llu bytes of a %llu-byte header (fmt extension of %u bytes) are accepted with length %d",
+				 (unsigned long long)t, (unsigned long long)hl, c->ext, ret);
+		else if (accepted && ret < RF_WAVHEADER_MIN_SIZE)
+			w_report("min-size", ct, rp, "rf_wavheader_decode(%llu bytes) = %d: success with a header length below 44 (fmt extension of %u bytes)", (unsigned long long)t, ret, c->ext);
+		else if (accepted && (uint64_t)ret != hl)
+			w_report("length-mismatch", ct, rp, "rf_wavheader_decode(%llu bytes) = %d but the header occupies %llu bytes (fmt extension of %u bytes)",
+				 (unsigned long long)t, ret, (unsigned long long)hl, c->ext);
+		else if (!accepted && (uint64_t)(int64_t)ret > t && ret > 0 && t >= hl)
+			w_report("complete-reported-incomplete", ct, rp, "rf_wavheader_decode(%llu bytes) = %d (> sz) although the complete %llu-byte header was supplied (fmt extension of %u bytes)",
+				 (unsigned long long)t, ret, (unsigned long long)hl, c->ext);
+		run_helpers_big(ct, rp, t, ret, accepted);
+	}
+	free(rp);
+}
+
 static void c14_case(const w_case *c)
 {
 	static int rets[W_BUFMAX + 1]; static uint8_t acc[W_BUFMAX + 1];
@@ -190,8 +264,9 @@ int main(int argc, char **argv)
 
 	char *rp = vx_read_replay();
 	if (rp) {
-		w_case c;
+		w_case c; w_bigcase bc;
 		replaying = 1;
+		if (!w_big_parse(rp, &bc)) { c14_big(&bc); vx_finish(); return 0; }
 		if (w_case_parse(rp, &c)) { fprintf(stderr, "c14: malformed replay file\n"); return 3; }
 		c14_case(&c);
 		vx_finish();
@@ -209,6 +284,12 @@ int main(int argc, char **argv)
 	int done_dev = -1, done_len = -1;
 	for (int l = 0; l <= slen && !w_stop; l++) { w_enum_strings(l, c14_case, 1); if (!w_stop) done_len = l; }
 	for (int d = 0; d <= maxdev && !w_stop; d++) { w_enum_headers(d, c14_case, 1); if (!w_stop) done_dev = d; }
+	for (int i = 0; i < W_NBIG && !w_stop; i++) {
+		w_bigcase bc;
+		if (!vx_mine((uint64_t)i)) continue;
+		w_big_get(i, &bc); c14_big(&bc);
+		if (vx_deadline_passed()) w_stop = 1;
+	}
 
 	vx_and("exhaustive", !w_stop);
 	vx_min("string_length_bound_completed", (uint64_t)(done_len < 0 ? 0 : done_len));
